@@ -1,15 +1,30 @@
 #!/usr/bin/env python3
 """Writes the instruction file handed to a fresh sub-agent that must produce realistic regressions for ONE property.
-The file contains only the property's statement and quantifier text and a scratch worktree path - nothing from /verif.
-usage: tools/seed_prompt.py C01 C02 ...   ->  /tmp/seeds/prompt_<id>.txt"""
-import json, os, sys
+The file contains only the property's statement and quantifier text, a scratch worktree path and - from round 2 on - one line per
+regression idea already delivered by earlier agents (so that new agents produce different ones).  Nothing about the checks in /verif.
+usage: tools/seed_prompt.py [--round N] C01 C02 ...   ->  /tmp/seeds<N>/prompt_<id>.txt  (round 1: /tmp/seeds)"""
+import glob, json, os, sys
+args = sys.argv[1:]
+rnd = 1
+if args and args[0] == "--round":
+    rnd = int(args[1]); args = args[2:]
 T = open(os.path.join(os.path.dirname(os.path.abspath(__file__)), "seed_prompt_template.txt")).read()
 props = {}
 for l in open('/verif/properties.jsonl'):
     d = json.loads(l)
     props[d['id']] = d
-os.makedirs('/tmp/seeds', exist_ok=True)
-for pid in sys.argv[1:]:
+out = '/tmp/seeds' + ('' if rnd == 1 else str(rnd))
+os.makedirs(out, exist_ok=True)
+for pid in args:
     d = props[pid]
-    open('/tmp/seeds/prompt_%s.txt' % pid, 'w').write(T.format(wt='/tmp/wt_' + pid, stmt=d['statement'], quant=d['quantifier']['text'], pid=pid))
-    print('/tmp/seeds/prompt_%s.txt' % pid)
+    txt = T.format(wt='/tmp/wt%s_%s' % ('' if rnd == 1 else str(rnd), pid), stmt=d['statement'], quant=d['quantifier']['text'], pid=pid)
+    txt = txt.replace('/tmp/seeds/', out + '/')
+    if rnd > 1:
+        taken = []
+        for m in sorted(glob.glob('/verif/seeded/%s-*/meta.json' % pid)):
+            patch = open(os.path.join(os.path.dirname(m), 'patch.diff')).read()
+            files = sorted({l[6:].strip() for l in patch.splitlines() if l.startswith('+++ b/')})
+            taken.append('  - %s (in %s)' % (json.load(open(m)).get('needs_to_manifest', ''), ', '.join(files)))
+        txt += "\n\nIDEAS ALREADY TAKEN by earlier engineers - produce DIFFERENT ones (other functions, other mechanisms, other triggers):\n" + "\n".join(taken) + "\n"
+    open('%s/prompt_%s.txt' % (out, pid), 'w').write(txt)
+    print('%s/prompt_%s.txt' % (out, pid))
